@@ -595,9 +595,29 @@ def _pairs_model(chk, fi: FuncInfo, loop: ast.For) -> PairsModel:
             hb = st.iter.id
             label_loop = st
             break
+    nbody = normalised(fi).node
     for st in after:
         if isinstance(st, ast.For) and isinstance(st.iter, ast.Call) and astq.callee_name(st.iter) == "most_common":
             select_loop = st
+        elif isinstance(st, ast.For):
+            # for x in takewhile(lambda item: P(item), C.most_common())  ==  for x in C.most_common(): if not P(x): break
+            it = st.iter
+            if isinstance(it, ast.Name):
+                d = [v for s2, v in astq.assignments(nbody, it.id) if v is not None]
+                it = d[0] if len(d) == 1 else it
+            if isinstance(it, ast.Call) and astq.callee_name(it) == "takewhile" and len(it.args) == 2 and isinstance(it.args[0], ast.Lambda) and len(it.args[0].args.args) == 1 and isinstance(it.args[1], ast.Call) and astq.callee_name(it.args[1]) == "most_common":
+                lam = it.args[0]
+                tgt_load = copy.deepcopy(st.target)
+                for x in ast.walk(tgt_load):
+                    if hasattr(x, "ctx"):
+                        x.ctx = ast.Load()
+                cond = SX.subst(lam.body, {lam.args.args[0].arg: tgt_load})
+                guard = ast.If(test=ast.UnaryOp(op=ast.Not(), operand=cond), body=[ast.Break()], orelse=[])
+                new = ast.For(target=st.target, iter=copy.deepcopy(it.args[1]), body=[guard] + list(st.body), orelse=[])
+                ast.copy_location(new, st)
+                for x in ast.walk(guard):
+                    ast.copy_location(x, st)
+                select_loop = ast.fix_missing_locations(new)
     if label_loop is not None:
         lp = [c.func.value.id for c in ast.walk(label_loop) if isinstance(c, ast.Call) and isinstance(c.func, ast.Attribute) and c.func.attr in ("append", "extend") and isinstance(c.func.value, ast.Name) and c.func.value.id in sites.nonnull]
         if len(set(lp)) == 1:
@@ -1244,6 +1264,21 @@ def check_selection(chk, fi: FuncInfo, m: PairsModel, fold, c: Dict[str, Any]) -
     nfi = normalised(fi)  # the loops of the model are statements of this copy
     inl = Inliner(nfi.node)
     src = inl.inline(sl.iter, sl)
+    mm = astq.match(src, "Counter(N_).most_common()")
+    if mm is not None and isinstance(mm["N_"], ast.Name) and mm["N_"].id != m.labels:
+        # another name for the list of labels: follow plain `a = b` bindings; if that does not lead to the list, the rule abstains
+        cur = mm["N_"].id
+        for _ in range(4):
+            d = [v for s2, v in astq.assignments(nfi.node, cur) if v is not None]
+            nxt = [v.id for v in d if isinstance(v, ast.Name)]
+            if cur == m.labels or not nxt:
+                break
+            cur = nxt[-1]
+        if cur == m.labels:
+            src = ast.parse(f"Counter({m.labels}).most_common()", mode="eval").body
+        else:
+            chk.error("select-source", fi.site(sl), f"selection iterates `{norm(src)}`; `{mm['N_'].id}` is not traced to the list the label loop fills (`{m.labels}`)")
+            return
     chk.expect(norm(src) == f"Counter({m.labels}).most_common()", "select-source", fi.site(sl), "candidates = Counter(labels).most_common(): every label with its contact count, best supported first", f"selection iterates `{norm(src)}`, not all labels with their counts", K(fi, "select-source"), found=norm(src))
     if not (isinstance(sl.target, ast.Tuple) and len(sl.target.elts) == 2 and isinstance(sl.target.elts[1], ast.Name)):
         raise NotReadable("selection loop target is not (label, count)")
